@@ -248,19 +248,136 @@ fn transposition(start: &Pos, rng: &mut Rng) -> Option<(Vec<Mv>, Vec<Mv>, Pos)> 
     None
 }
 
+/// Search-key audit: the keys under which a real search files its results must be the hashes of positions
+/// that search visited — a key carried down the tree and updated move by move has to agree with the hash
+/// computed from the board, or the hash of a position depends on how it was reached. Observed: every key in
+/// the table after a depth 2..4 search on a fresh engine; expected: the from-scratch hash (hook verif_hash,
+/// the engine's own ZobristTable::hash with the searcher's keys) of the root or of a position recorded by
+/// the node logs (every main-search node and every quiescence node).
+fn search_key_audit(p: &Pos, depth: u8, st: &mut Stats) {
+    use crate::search::Searcher;
+    let b = eng::board_from_pos(p);
+    crate::report::note_case(&format!("search-key audit of {} at depth {}", p.to_fen(), depth));
+    let r = engine_call(|| {
+        let mut s = Searcher::new();
+        s.verif.nlog = Some(vec![]);
+        s.verif.qlog = Some(vec![]);
+        s.verif_timer().hard_cap = Some(3_000_000);
+        s.find_best_move(&b, depth, None);
+        let mut known: std::collections::HashSet<u64> = std::collections::HashSet::new();
+        known.insert(s.verif_hash(&b));
+        let nl = s.verif.nlog.take().unwrap_or_default();
+        let ql = s.verif.qlog.take().unwrap_or_default();
+        for (nb, _, _, _) in nl.iter() {
+            known.insert(s.verif_hash(nb));
+        }
+        for (qb, _, _) in ql.iter() {
+            known.insert(s.verif_hash(qb));
+        }
+        let entries = s.verif_tt_entries();
+        let orphans: Vec<u64> = entries.iter().map(|e| e.hash_key).filter(|k| !known.contains(k)).collect();
+        (entries.len(), orphans, nl.len() + ql.len())
+    });
+    match r {
+        Err(msg) => {
+            if msg.contains("hard node cap") {
+                st.bump("search_key_audits_skipped_search_too_large");
+            }
+            // any other panic inside a search is C03/C05's finding, not a statement about hashing
+        }
+        Ok((n, orphans, visited)) => {
+            st.bump("search_key_audits");
+            st.add("table_keys_traced_to_visited_positions", (n - orphans.len()) as u64);
+            st.add("positions_logged_by_audited_searches", visited as u64);
+            if !orphans.is_empty() {
+                st.violation(
+                    format!("C11:search-key:{}:{}", p.to_fen(), depth),
+                    format!(
+                        "after searching {} to depth {} on a fresh engine, {} of the {} keys in the table are not the hash of any position the search visited (e.g. {:#x}): the search files positions under keys that depend on how they were reached",
+                        p.to_fen(),
+                        depth,
+                        orphans.len(),
+                        n,
+                        orphans[0]
+                    ),
+                    J::obj(vec![("kind", J::s("search_key")), ("fen", J::s(p.to_fen())), ("depth", J::i(depth as i64))]),
+                );
+            }
+        }
+    }
+}
+
+/// true when a capturing promotion is available at `p` or one ply below it
+fn capturing_promotion_near(p: &Pos) -> bool {
+    let has = |q: &Pos| q.legal_moves().iter().any(|m| m.promo != 0 && q.sq[m.to as usize] != 0);
+    if has(p) {
+        return true;
+    }
+    p.legal_moves().iter().take(40).any(|m| has(&p.make(m)))
+}
+
+fn search_key_part(ctx: &Ctx) -> Stats {
+    let n = ctx.budget(640, 12000);
+    parallel(ctx.workers, |w| {
+        let mut st = Stats::new();
+        let mut rng = Rng::new(ctx.seed, 270 + w as u64);
+        for k in 0..(n / ctx.workers as u64 + 1) {
+            if k >= 2 && ctx.out_of_time() {
+                break;
+            }
+            let p = match k % 6 {
+                0 => gen::g_promo(&mut rng),
+                1 => gen::g_ep(&mut rng),
+                2 => gen::g_castle(&mut rng),
+                3 => gen::g_small(&mut rng, 8),
+                4 => gen::g_underpromo(&mut rng),
+                _ => gen::g_game_pos(&mut rng),
+            };
+            if p.legal_moves().is_empty() {
+                continue;
+            }
+            let depth = if p.piece_count() <= 8 { 2 + rng.below(3) as u8 } else { 2 + rng.below(2) as u8 };
+            st.case(hash64(&(0x5eau64, p.key(), depth)), true);
+            if capturing_promotion_near(&p) {
+                st.bump("search_key_audits_with_a_capturing_promotion_near_the_root");
+            }
+            if p.ep != NO_EP {
+                st.bump("search_key_audits_of_positions_with_an_en_passant_target");
+            }
+            if p.castle != 0 {
+                st.bump("search_key_audits_of_positions_with_castling_rights");
+            }
+            st.sample_tagged("search_key_audit", || J::obj(vec![("kind", J::s("search_key")), ("fen", J::s(p.to_fen())), ("depth", J::i(depth as i64))]));
+            search_key_audit(&p, depth, &mut st);
+        }
+        st
+    })
+}
+
 pub fn run(ctx: &Ctx) -> i32 {
     let spec = Spec {
         level: "exploration",
-        rule: "cases are (key set, position) pairs: for every key set drawn (ZobristTable::new(), fresh random keys) and every generated position the hash of the board played in place must equal the hash of the board rebuilt from FEN with different move counters and the hash of the board reached through a transposed move order; every valid single-component variation (remove/recolour/retype/relocate/add one piece, flip side, toggle each castling right, ep none/file/other file with a legal capture) must hash differently; no two distinct positions of the run may collide under one key set; neighbourhood probe: for three base positions per key set the COMPLETE one-component neighbourhood (every square set to every piece or emptied, kings relocated, side, each right, every en-passant target with a legal capture) is hashed and all members must differ pairwise, which exposes any two features sharing a key. Distinct by (key set index, position); non-trivial = all",
+        rule: "cases are (key set, position) pairs: for every key set drawn (ZobristTable::new(), fresh random keys) and every generated position the hash of the board played in place must equal the hash of the board rebuilt from FEN with different move counters and the hash of the board reached through a transposed move order; every valid single-component variation (remove/recolour/retype/relocate/add one piece, flip side, toggle each castling right, ep none/file/other file with a legal capture) must hash differently; no two distinct positions of the run may collide under one key set; neighbourhood probe: for three base positions per key set the COMPLETE one-component neighbourhood (every square set to every piece or emptied, kings relocated, side, each right, every en-passant target with a legal capture) is hashed and all members must differ pairwise, which exposes any two features sharing a key; search-key audit: after a depth 2..4 search on a fresh engine (promotion, en-passant, castling studies, few-men and game positions) every key in the transposition table must be the from-scratch hash of the root or of a position the search's node logs recorded, so a key carried incrementally down the tree that disagrees with the hash of the board (i.e. depends on the path) shows. Distinct by (key set index, position); non-trivial = all",
         assumptions: vec![
             "64-bit random keys: a spurious equality between two different positions has probability < 1e-12 per run and is accepted".into(),
             "key sets not drawn in this run are not covered; each run draws fresh ones from the engine's own generator".into(),
             "rules oracle validated by perft at start".into(),
         ],
-        required: if ctx.replay.is_some() { vec![] } else { vec!["same_inplace_vs_fen", "same_transposition", "diff_remove_piece", "diff_exchange_two_squares", "diff_flip_side_to_move", "diff_toggle_white_kingside", "diff_toggle_black_queenside", "diff_ep_none_vs_file", "diff_ep_file_vs_other_file", "key_sets", "neighbourhood_probes", "neighbourhood_members_with_en_passant_target"] },
+        required: if ctx.replay.is_some() { vec![] } else { vec!["same_inplace_vs_fen", "same_transposition", "diff_remove_piece", "diff_exchange_two_squares", "diff_flip_side_to_move", "diff_toggle_white_kingside", "diff_toggle_black_queenside", "diff_ep_none_vs_file", "diff_ep_file_vs_other_file", "key_sets", "neighbourhood_probes", "neighbourhood_members_with_en_passant_target", "search_key_audits", "search_key_audits_with_a_capturing_promotion_near_the_root", "search_key_audits_of_positions_with_an_en_passant_target", "search_key_audits_of_positions_with_castling_rights"] },
         exhaustive: false,
         extra: vec![],
     };
+    if let Some(c) = ctx.replay.as_ref().and_then(|r| r.get("case")).filter(|c| c.str_of("kind") == "search_key") {
+        let mut st = Stats::new();
+        match Pos::from_fen(&c.str_of("fen")) {
+            Ok(p) => {
+                st.case(hash64(&(0x5eau64, p.key())), true);
+                search_key_audit(&p, c.int_of("depth") as u8, &mut st);
+            }
+            Err(_) => st.inconclusive.push("replay: bad fen".into()),
+        }
+        return finalize(ctx, spec, st);
+    }
     let key_sets = if ctx.replay.is_some() { 4 } else { ctx.budget(256, 4096) };
     let positions_per_set = if ctx.replay.is_some() { 1 } else { ctx.budget(1500, 4000) };
     let per_worker = key_sets / ctx.workers as u64 + 1;
@@ -414,5 +531,9 @@ pub fn run(ctx: &Ctx) -> i32 {
         }
         st
     });
+    let mut total = total;
+    if ctx.replay.is_none() {
+        total.merge(search_key_part(ctx));
+    }
     finalize(ctx, spec, total)
 }
